@@ -8,10 +8,12 @@ package main
 import (
 	"encoding/json"
 	"fmt"
+	"net"
 	"os"
 	"sort"
 	"strings"
 	"sync"
+	"sync/atomic"
 	"time"
 
 	"go.sia.tech/core/gateway"
@@ -34,17 +36,22 @@ type Scen struct {
 	Seed     uint64           `json:"seed"`
 	Regime   int              `json:"regime"`
 	Opts     chaingen.GenOpts `json:"opts"`
-	Tips     []int            `json:"tips"`               // initial tip (tree node index) per node
-	Edges    [][2]int         `json:"edges"`              // connection order; [a,b]: a dials b
-	Batch    uint64           `json:"batch"`              // WithMaxSendBlocks on every node (0 = default)
-	MaxIn    int              `json:"max_in,omitempty"`   // WithMaxInboundPeers (0 = default)
-	Boot     []bool           `json:"boot,omitempty"`     // node bootstrapped from a checkpoint (its tip) instead of genesis
-	Announce bool             `json:"announce"`           // tips are re-announced while waiting (as the property says)
-	Staged   bool             `json:"staged,omitempty"`   // each connection is made only after the previous one has finished syncing (both ends marked synced)
-	HdrOnly  bool             `json:"hdr_only,omitempty"` // tips are announced by header only (what syncLoop itself relays; v1 tips have no outline anyway)
-	Steps    [][2]int         `json:"steps,omitempty"`    // kind "announce": [miner node, tree block]: the miner adds the block and announces it ONCE
-	Compact  bool             `json:"compact,omitempty"`  // kind "announce": outlines carry hashes only (built against the miner's pool before the block was added)
-	Honour   bool             `json:"honour,omitempty"`   // kind "announce": the peer stores honour bans (a banned honest peer cannot come back)
+	Tips     []int            `json:"tips"`                 // initial tip (tree node index) per node
+	Edges    [][2]int         `json:"edges"`                // connection order; [a,b]: a dials b
+	Batch    uint64           `json:"batch"`                // WithMaxSendBlocks on every node (0 = default)
+	MaxIn    int              `json:"max_in,omitempty"`     // WithMaxInboundPeers (0 = default)
+	Boot     []bool           `json:"boot,omitempty"`       // node bootstrapped from a checkpoint (its tip) instead of genesis
+	Announce bool             `json:"announce"`             // tips are re-announced while waiting (as the property says)
+	Staged   bool             `json:"staged,omitempty"`     // each connection is made only after the previous one has finished syncing (both ends marked synced)
+	HdrOnly  bool             `json:"hdr_only,omitempty"`   // tips are announced by header only (what syncLoop itself relays; v1 tips have no outline anyway)
+	MidReorg []int            `json:"mid_reorg,omitempty"`  // [node, tree block]: that node adopts the chain to that block between its Headers answer and its first block answer
+	Flaky    int64            `json:"flaky,omitempty"`      // the first connection of the first edge is cut after that many bytes written by the dialling side; links are re-established
+	Restart  int              `json:"restart,omitempty"`    // 1+node: that node's syncer is closed after a moment and a fresh one is started over the same manager and re-linked
+	Unobs    bool             `json:"unobserved,omitempty"` // the syncers talk to their managers directly (no recording wrapper serialising a node's calls)
+	Bound    string           `json:"bound,omitempty"`      // which boundary shape a directed scenario is about (for the evidence counters)
+	Steps    [][2]int         `json:"steps,omitempty"`      // kind "announce": [miner node, tree block]: the miner adds the block and announces it ONCE
+	Compact  bool             `json:"compact,omitempty"`    // kind "announce": outlines carry hashes only (built against the miner's pool before the block was added)
+	Honour   bool             `json:"honour,omitempty"`     // kind "announce": the peer stores honour bans (a banned honest peer cannot come back)
 	Slot     int              `json:"-"`
 }
 
@@ -80,6 +87,42 @@ type result struct {
 	reorgs   int
 	notes    []string
 	expected int
+	cut      bool
+}
+
+// midReorg is the chain manager of a node that learns of a heavier chain while it is being pulled from: between
+// its Headers answer and its first block answer it adopts `blocks` (so the blocks it serves no longer match the
+// headers it announced — the honest way of sending "blocks that do not match the announced headers").
+type midReorg struct {
+	*chain.Manager
+	blocks []types.Block
+	seenH  atomic.Bool
+	once   sync.Once
+}
+
+func (m *midReorg) Headers(index types.ChainIndex, max uint64) ([]types.BlockHeader, uint64, error) {
+	hs, rem, err := m.Manager.Headers(index, max)
+	if err == nil && len(hs) > 0 {
+		m.seenH.Store(true)
+	}
+	return hs, rem, err
+}
+
+func (m *midReorg) reorg() {
+	if m.seenH.Load() {
+		m.once.Do(func() { m.Manager.AddBlocks(m.blocks) })
+	}
+}
+
+func (m *midReorg) BlocksForHistory(history []types.BlockID, max uint64) ([]types.Block, uint64, error) {
+	m.reorg()
+	return m.Manager.BlocksForHistory(history, max)
+}
+
+// Block is what the SendCheckpoint handler asks first on the pre-validated path.
+func (m *midReorg) Block(id types.BlockID) (types.Block, bool) {
+	m.reorg()
+	return m.Manager.Block(id)
 }
 
 func uidFor(seed uint64, i int) gateway.UniqueID {
@@ -152,6 +195,7 @@ func runNet(s Scen) (res result) {
 		}
 	}()
 	booted := false
+	var cut *netsim.CutDialer
 	for i := 0; i < n; i++ {
 		tipN := t.Nodes[s.Tips[i]]
 		var store *chain.DBStore
@@ -167,16 +211,37 @@ func runNet(s Scen) (res result) {
 		} else {
 			store, cm = netsim.NewChain(t.Env, t, tipN)
 		}
-		nd, err := netsim.Start(fmt.Sprintf("n%d", i), netsim.IPFor(s.Slot, i), t.Env, store, cm, netsim.Options{Opts: nodeOpts(s), UID: uidFor(s.Seed, i)})
+		opt := netsim.Options{Opts: nodeOpts(s), UID: uidFor(s.Seed, i), Unobserved: s.Unobs}
+		if len(s.MidReorg) == 2 && s.MidReorg[0] == i {
+			mr := &midReorg{Manager: cm, blocks: chaingen.Blocks(t.Path(t.Nodes[s.MidReorg[1]]))}
+			opt.Wrap = func(*chain.Manager) syncer.ChainManager { return mr }
+		}
+		if s.Flaky > 0 && len(s.Edges) > 0 && s.Edges[0][0] == i {
+			cut = &netsim.CutDialer{Inner: &net.Dialer{LocalAddr: &net.TCPAddr{IP: net.ParseIP(netsim.IPFor(s.Slot, i))}}, Budget: s.Flaky, Times: 1}
+			opt.Opts = append(opt.Opts, syncer.WithDialer(cut))
+		}
+		nd, err := netsim.Start(fmt.Sprintf("n%d", i), netsim.IPFor(s.Slot, i), t.Env, store, cm, opt)
 		if err != nil {
 			res.fail = &failure{"c12-harness", "cannot start node: " + err.Error()}
 			return
 		}
 		nodes[i] = nd
 	}
-	for _, nd := range nodes {
-		for _, o := range nodes {
-			nd.PS.Trusted[o.IP] = true
+	trustAll := func() {
+		for _, nd := range nodes {
+			for _, o := range nodes {
+				nd.PS.Trusted[o.IP] = true
+			}
+		}
+	}
+	trustAll()
+	// relink: re-establish every edge neither end of which sees the other any more
+	relink := func() {
+		for _, e := range s.Edges {
+			a, b := nodes[e[0]], nodes[e[1]]
+			if !a.Connected(b.IP) && !b.Connected(a.IP) {
+				a.Connect(b)
+			}
 		}
 	}
 	for _, e := range s.Edges {
@@ -190,9 +255,15 @@ func runNet(s Scen) (res result) {
 			}
 		}
 	}
-	h := heaviest(t, s.Tips)
+	cand := s.Tips
+	if len(s.MidReorg) == 2 {
+		cand = append(append([]int(nil), s.Tips...), s.MidReorg[1])
+	}
+	h := heaviest(t, cand)
 	res.expected = h.Idx
-	sep := separated(t, s.Tips, h)
+	sep := separated(t, cand, h)
+	restarted := false
+	restartAt := time.Now().Add(1300 * time.Millisecond)
 	tipsNow := func() []int {
 		out := make([]int, n)
 		for i, nd := range nodes {
@@ -218,6 +289,7 @@ func runNet(s Scen) (res result) {
 	last := tipsNow()
 	lastChange := time.Now()
 	lastAnn := time.Time{}
+	lastRelink := time.Now()
 	for {
 		if s.Announce && time.Since(lastAnn) > 250*time.Millisecond {
 			for _, nd := range nodes {
@@ -230,6 +302,24 @@ func runNet(s Scen) (res result) {
 			lastAnn = time.Now()
 		}
 		time.Sleep(40 * time.Millisecond)
+		if s.Restart > 0 && !restarted && time.Now().After(restartAt) {
+			// close the node's syncer in the middle of things and start a fresh one over the same store and manager
+			restarted = true
+			k := s.Restart - 1
+			old := nodes[k]
+			old.Close()
+			nd, err := netsim.Start(fmt.Sprintf("n%d'", k), netsim.IPFor(s.Slot, k), t.Env, old.Store, old.CM, netsim.Options{Opts: nodeOpts(s), UID: uidFor(s.Seed, 100+k), Unobserved: true})
+			if err != nil {
+				res.fail = &failure{"c12-harness", "cannot restart node: " + err.Error()}
+				return
+			}
+			nodes[k] = nd
+			trustAll()
+		}
+		if (s.Flaky > 0 || restarted) && time.Since(lastRelink) > 400*time.Millisecond {
+			relink()
+			lastRelink = time.Now()
+		}
 		cur := tipsNow()
 		if fmt.Sprint(cur) != fmt.Sprint(last) {
 			last, lastChange = cur, time.Now()
@@ -355,7 +445,13 @@ func runNet(s Scen) (res result) {
 			return
 		}
 	}
-	if !booted {
+	if cut != nil {
+		res.notes = append(res.notes, fmt.Sprintf("connections cut: %d", cut.Cuts.Load()))
+		if cut.Cuts.Load() > 0 {
+			res.cut = true
+		}
+	}
+	if !booted && !s.Unobs && s.Restart == 0 && len(s.MidReorg) == 0 {
 		res.coq, res.events = coqEvents(t, s, nodes, res.final)
 	}
 	return
@@ -769,6 +865,9 @@ func genScen(r *rng.R, i int, stream string, thorough bool) (Scen, bool) {
 		s.Edges = append(s.Edges, e)
 	}
 	s.Batch = []uint64{1, 3, 100}[(i/2)%3]
+	if i%5 == 4 {
+		s.Unobs = true
+	}
 	if r.Chance(1, 5) {
 		s.MaxIn = 1 + r.Intn(3)
 	}
@@ -943,6 +1042,24 @@ func run(c *hx.Ctx) {
 		if r.fail == nil && r.finding == nil && s.Kind == "net" {
 			res.Count("converged")
 		}
+		if len(s.MidReorg) == 2 {
+			res.Count("dim:peer-reorgs-between-headers-and-blocks")
+		}
+		if s.Flaky > 0 {
+			res.Count("dim:link-cut-mid-exchange-and-relinked")
+			if r.cut {
+				res.Count("dim:link-cut-mid-exchange-and-relinked/cut-happened")
+			}
+		}
+		if s.Restart > 0 {
+			res.Count("dim:syncer-restarted-over-same-manager")
+		}
+		if s.Unobs {
+			res.Count("dim:unobserved-nodes-judged-at-end-only")
+		}
+		if s.Bound != "" {
+			res.Count("dim:boundary/" + s.Bound)
+		}
 		if r.coq != "" {
 			cases = append(cases, r.coq)
 		}
@@ -978,7 +1095,7 @@ func run(c *hx.Ctx) {
 	var scens []Scen
 	scens = append(scens, corpus()...)
 	scens = append(scens, announceScens(c.Thorough)...)
-	nExact, nFinding, nPull := c.Scale(40, 400), c.Scale(14, 120), c.Scale(170, 900)
+	nExact, nFinding, nPull := c.Scale(32, 400), c.Scale(10, 120), c.Scale(140, 900)
 	for i := 0; i < nExact; i++ {
 		if s, ok := genScen(c.R.Fork(), i, "exact", c.Thorough); ok {
 			scens = append(scens, s)
@@ -1156,6 +1273,52 @@ func corpus() []Scen {
 		o := chaingen.GenOpts{Shape: shape, Kinds: []string{"v1-siafund", "v1-siafund", "v1-transfer"}, TxPerBlock: 3}
 		out = append(out, Scen{Kind: "net", Stream: "exact", Seed: uint64(8700 + k), Regime: regime, Announce: true, Opts: o, Tips: []int{tx, ty, tx}, Edges: [][2]int{{0, 1}, {1, 2}}, Batch: 100})
 		out = append(out, Scen{Kind: "pull", Stream: "exact", Seed: uint64(8750 + k), Regime: regime, Opts: o, Tips: []int{tx, ty}})
+	}
+	// a peer that reorgs onto a heavier chain between its header answer and its block answer (header-matched and
+	// pre-validated path): the blocks it serves do not match the headers it announced, honestly
+	for k, regime := range []int{0, 2, 1, 5} {
+		trunk := 2
+		if regime%3 == 1 {
+			trunk = 5 + 4*(k%2) // below / above the require height of the overlap regime
+		}
+		shape, _, tx, ty := forkShape(trunk, 2, 4)
+		tz := len(shape) + 6
+		for q := 0; q < 6; q++ { // Z: 6 blocks on the trunk tip
+			if q == 0 {
+				shape = append(shape, trunk)
+			} else {
+				shape = append(shape, len(shape))
+			}
+		}
+		out = append(out, Scen{Kind: "net", Stream: "exact", Seed: uint64(9000 + k), Regime: regime, Announce: true, Opts: chaingen.GenOpts{Shape: shape, TxPerBlock: 1},
+			Tips: []int{tx, ty}, Edges: [][2]int{{0, 1}}, MidReorg: []int{1, tz}, Batch: []uint64{100, 3}[k%2]})
+	}
+	// a link that dies in the middle of an exchange (after a byte budget) and is re-established; a syncer that is
+	// closed in the middle of things and replaced by a fresh one over the same manager
+	for k, budget := range []int64{500, 2500, 9000} {
+		shape, _, tx, ty := forkShape(2, 3, 7)
+		out = append(out, Scen{Kind: "net", Stream: "exact", Seed: uint64(9100 + k), Regime: []int{0, 2, 1}[k], Announce: true, Opts: chaingen.GenOpts{Shape: shape, TxPerBlock: 2},
+			Tips: []int{tx, ty, tx}, Edges: [][2]int{{0, 1}, {2, 0}}, Flaky: budget, Batch: []uint64{100, 3, 1}[k]})
+	}
+	for k, regime := range []int{2, 0} {
+		shape, _, tx, ty := forkShape(2, 3, 9)
+		out = append(out, Scen{Kind: "net", Stream: "exact", Seed: uint64(9200 + k), Regime: regime, Announce: true, Opts: chaingen.GenOpts{Shape: shape, TxPerBlock: 1},
+			Tips: []int{tx, ty, tx}, Edges: [][2]int{{0, 1}, {0, 2}}, Restart: 1, Batch: 2})
+	}
+	// boundary shapes: request bases exactly at require-1 / require / require+1 (overlap regime: allow 3, require 8),
+	// requests whose size makes a later base land on the require height, own forks of exactly 10, 11, 15, 16 blocks
+	// (the history sample's dense part ends at 10; entries at 11 and 15)
+	for k, fp := range []int{2, 3, 7, 8, 9} {
+		shape, _, tx, ty := forkShape(fp, 2, 4)
+		out = append(out, Scen{Kind: "pull", Stream: "exact", Seed: uint64(9300 + k), Regime: 1 + 3*(k%2), Opts: chaingen.GenOpts{Shape: shape, TxPerBlock: 1}, Tips: []int{tx, ty}, Batch: 100, Bound: fmt.Sprintf("fork-point-height-%d(allow3,require8)", fp)})
+	}
+	for k, b := range []uint64{1, 2, 3} {
+		shape, _, tx, ty := forkShape(5, 1, 6)
+		out = append(out, Scen{Kind: "pull", Stream: "exact", Seed: uint64(9320 + k), Regime: 1, Opts: chaingen.GenOpts{Shape: shape}, Tips: []int{tx, ty}, Batch: b, Bound: "request-base-lands-on-require-height"})
+	}
+	for k, l := range []int{10, 11, 15, 16} {
+		shape, _, tx, ty := forkShape(8, l, l+2)
+		out = append(out, Scen{Kind: "pull", Stream: "exact", Seed: uint64(9340 + k), Regime: []int{2, 0}[k%2], Opts: chaingen.GenOpts{Shape: shape}, Tips: []int{tx, ty}, Bound: fmt.Sprintf("own-fork-%d-blocks", l)})
 	}
 	return out
 }
